@@ -10,6 +10,7 @@ import (
 	"log"
 	"net"
 	"net/http"
+	"net/http/httptest"
 	"net/url"
 	"os"
 	"runtime"
@@ -113,6 +114,10 @@ type exchangeSpec struct {
 	// proxy has finished sending the request. (net/http leaves this order to the goroutine scheduler.)
 	lateProbe        bool
 	backendURLExtras bool // the caller's backend URL carries a path and a query of its own
+	// neighbour: another user of the forward package in the same process - a second forwarder with its own,
+	// differently configured header rewriter (no trust in upstream headers, another instance name), built
+	// before (1) or after (2) the forwarder under test and used for a request of its own.
+	neighbour int
 	// client behaviour
 	clientCloseWhenBackendHasRequest bool // client goes away while the backend is stalled before responding
 	clientCloseAfterBody             int  // >0: client closes after reading that many body bytes (backend stalled mid-body)
@@ -274,8 +279,27 @@ func runExchange(spec exchangeSpec) exchangeResult {
 			return a, nil
 		},
 	}
+	neighbour := func() {
+		nr := forward.NewHeaderRewriter()
+		nr.TrustForwardHeader, nr.Hostname = false, "neighbour-instance"
+		nreq, _ := http.NewRequest("GET", "http://neighbour.example/", nil)
+		nreq.RemoteAddr = "198.51.100.1:9"
+		nreq.Header.Set("X-Forwarded-For", "203.0.113.200")
+		nr.Rewrite(nreq)
+		nf := forward.New(!spec.passHost)
+		nf.Transport = roundTripFunc(func(*http.Request) (*http.Response, error) {
+			return &http.Response{StatusCode: 204, Header: http.Header{}, Body: http.NoBody}, nil
+		})
+		nf.ServeHTTP(httptest.NewRecorder(), nreq)
+	}
+	if spec.neighbour == 1 {
+		neighbour()
+	}
 	fwd := forward.New(spec.passHost)
 	fwd.Transport = transport
+	if spec.neighbour == 2 {
+		neighbour()
+	}
 	var slog bytes.Buffer
 	var slogMu sync.Mutex
 	var order []string
@@ -524,3 +548,7 @@ func (c *eventDeadline) Err() error {
 		return c.Context.Err()
 	}
 }
+
+type roundTripFunc func(*http.Request) (*http.Response, error)
+
+func (f roundTripFunc) RoundTrip(r *http.Request) (*http.Response, error) { return f(r) }
